@@ -13,6 +13,10 @@ import (
 // replica. Ops are plain data (part of the plan / replay file).
 
 type Agents struct {
+	// Noise is sent in front of the browser's own cookies (other applications' cookies, valueless crumbs).
+	Noise map[int]string
+	// Scheme of the requests of a browser as Envoy reports it ("" = https).
+	Scheme map[int]string
 	w        *World
 	Browsers map[int]*Browser
 	// history of session ids each browser held per filter (for "stale" cookies)
@@ -23,7 +27,7 @@ type Agents struct {
 }
 
 func (w *World) NewAgents() *Agents {
-	return &Agents{w: w, Browsers: map[int]*Browser{}, PrevSID: map[string][]string{}, LastAuth: map[string]*AuthReq{}, LastCB: map[string]string{}}
+	return &Agents{w: w, Browsers: map[int]*Browser{}, PrevSID: map[string][]string{}, LastAuth: map[string]*AuthReq{}, LastCB: map[string]string{}, Noise: map[int]string{}, Scheme: map[int]string{}}
 }
 
 func (a *Agents) B(id int) *Browser {
@@ -32,6 +36,8 @@ func (a *Agents) B(id int) *Browser {
 		b = a.w.NewBrowser(id)
 		a.Browsers[id] = b
 	}
+	b.Noise = a.Noise[id]
+	b.Scheme = a.Scheme[id]
 	return b
 }
 
@@ -65,7 +71,7 @@ func (a *Agents) Nav(label string, bid, fi int, path string, hops int) *NavResul
 	f := a.w.Filters[fi]
 	b := a.B(bid)
 	a.hdrFor(b, f)
-	res := b.Navigate(label, "https", f.Spec.AppHost, path, hops)
+	res := b.Navigate(label, b.scheme(), f.Spec.AppHost, path, hops)
 	for _, ar := range res.AuthReqs {
 		a.LastAuth[key(bid, fi)] = ar
 	}
@@ -84,7 +90,7 @@ func (a *Agents) Begin(label string, bid, fi int, path string) (string, *CheckRe
 	f := a.w.Filters[fi]
 	b := a.B(bid)
 	a.hdrFor(b, f)
-	rec := b.Send(label, "https", f.Spec.AppHost, path)
+	rec := b.Send(label, b.scheme(), f.Spec.AppHost, path)
 	a.noteSID(b, f)
 	if rec.Class != "redirect-idp" {
 		return "", rec
@@ -166,6 +172,25 @@ func (a *Agents) cookieFor(mode string, bid, fi int) (string, bool) {
 			return "", false
 		}
 		return of.Spec.CookieName() + "=" + sid + "; " + name + "=" + sid, true
+	case strings.HasPrefix(mode, "name-variant:"):
+		// the browser's own live session id under a NEAR-MISS of this filter's cookie name
+		sid := a.sidOf(b, f)
+		if sid == "" {
+			return "", false
+		}
+		switch mode[13:] {
+		case "prefix-x":
+			return "x" + name + "=" + sid, true
+		case "suffix-x":
+			return name + "x=" + sid, true
+		case "lower":
+			return strings.ToLower(name) + "=" + sid, true
+		case "drop-last":
+			return name[:len(name)-1] + "=" + sid, true
+		case "prefix-x-then-garbage":
+			return "x" + name + "=" + sid + "; " + name + "=zzzzzzzzzzzzzzzzzzzzzzzzzzzzzzzz", true
+		}
+		return "", false
 	case strings.HasPrefix(mode, "other-name:"):
 		// the browser's own session id under another cookie name
 		sid := a.sidOf(b, f)
@@ -181,7 +206,7 @@ func (a *Agents) Raw(label string, bid, fi int, path, mode string) *CheckRec {
 	b := a.B(bid)
 	a.hdrFor(b, f)
 	if mode == "" || mode == "own" {
-		r := b.Send(label, "https", f.Spec.AppHost, path)
+		r := b.Send(label, b.scheme(), f.Spec.AppHost, path)
 		a.noteSID(b, f)
 		return r
 	}
@@ -194,9 +219,12 @@ func (a *Agents) Raw(label string, bid, fi int, path, mode string) *CheckRec {
 		hdr[k] = v
 	}
 	if ck != "" {
+		if b.Noise != "" && (mode == "held" || mode == "stale") {
+			ck = b.Noise + "; " + ck
+		}
 		hdr["cookie"] = ck
 	}
-	return a.w.Check(bid, label, "https", f.Spec.AppHost, path, hdr)
+	return a.w.Check(bid, label, b.scheme(), f.Spec.AppHost, path, hdr)
 }
 
 // Exec runs one op. It returns false when the op could not be applied in the current state (it is
@@ -226,6 +254,14 @@ func (a *Agents) Exec(op *Op) bool {
 			p += op.S // query / fragment variants
 		}
 		a.Raw("logout", op.B, op.F, p, "own")
+	case "client":
+		// properties of a client: cookies of other applications it sends along, scheme it is reached by
+		if v, ok := op.Args["noise"]; ok {
+			a.Noise[op.B] = v
+		}
+		if v, ok := op.Args["scheme"]; ok {
+			a.Scheme[op.B] = v
+		}
 	case "adv":
 		w.Advance(time.Duration(op.D) * time.Second)
 		w.logf("t=%s advance %ds", time.Since(w.start).Round(time.Millisecond), op.D)
